@@ -153,7 +153,7 @@ func genAssets(r *hx.Rand, cfg GenCfg) *Assets {
 
 func genOptions(r *hx.Rand, cfg GenCfg) Options {
 	o := Options{MaxSteps: 100, MaxResumes: 500, MaxTemplateChars: 10000, MaxResultChars: 640}
-	if cfg.SmallLimits || r.Chance(1, 3) {
+	if cfg.SmallLimits || (r.Chance(1, 3) && !(cfg.Long && r.Chance(2, 3))) {
 		o.MaxSteps = hx.Pick(r, []int{0, 1, 2, 3, 4, 5, 7, 10, 20, 100})
 		o.MaxResumes = hx.Pick(r, []int{0, 1, 2, 3, 5, 500})
 	}
@@ -218,7 +218,17 @@ func genNode(r *hx.Rand, cfg GenCfg, a *Assets, f *Flow, n *Node) {
 			n.Actions = append(n.Actions, act)
 		default:
 			fl := a.Flows[r.Intn(len(a.Flows))].ID
-			if r.Chance(1, 12) {
+			if cfg.Long && r.Chance(3, 4) {
+				// mostly a later flow: no unbounded recursion
+				fl = a.Flows[len(a.Flows)-1].ID
+				if later := len(a.Flows) - f.ID; later > 0 {
+					fl = f.ID + 1 + r.Intn(later)
+				} else if r.Bool() {
+					n.Actions = append(n.Actions, Action{Kind: "send_msg", Text: genText(r)})
+					continue
+				}
+			}
+			if r.Chance(1, 12) && !(cfg.Long && r.Chance(2, 3)) {
 				fl = 9 // a flow that does not exist in the assets
 			}
 			n.Actions = append(n.Actions, Action{Kind: "enter_flow", Flow: fl, Terminal: r.Chance(1, 5)})
@@ -254,7 +264,7 @@ func genNode(r *hx.Rand, cfg GenCfg, a *Assets, f *Flow, n *Node) {
 		for k := 0; k < ncase; k++ {
 			rt.Cases = append(rt.Cases, Case{Arg: hx.Pick(r, words), Cat: r.Intn(ncat)})
 		}
-		if r.Chance(3, 4) {
+		if r.Chance(3, 4) || (cfg.Long && r.Chance(3, 4)) {
 			rt.Default = r.Intn(ncat)
 		}
 		if r.Chance(1, 2) {
